@@ -24,6 +24,8 @@ def generate(rng, tier):
         toggles = i % 4 == 3
         rk = ['add', 'remove', 'dispatch'] + (['enable'] if toggles else [])
         lines += gen_disp.gen_reactions(rng, objs, mapping_of, rk, raise_p=0.3 if toggles else 0.15)
+        if i % 3 == 1:
+            lines.append(f'decoy {rng.randint(0, 999)}')      # a second dispatcher in the same process
         for o in objs:
             if rng.random() < 0.7:
                 lines.append(f'op add {o}')
